@@ -289,6 +289,20 @@ def case(acc, sp, route, cap, label):
         st = subj.current()
         if T.raised:
             break
+        # whenever it is asked, the advertised bound must cover the best
+        # goal-reaching episode
+        later = float(subj.env.get_score_upper_bound())
+        acc.evaluations += 1
+        if best > later + 1e-6 and best <= bound + 1e-6:
+            acc.violation(
+                "episode_exceeds_advertised_bound",
+                "bound_exceeded:advertised_later_in_the_episode",
+                {"advertised_after_reset": bound,
+                 "advertised_during_episode": later,
+                 "best_goal_reaching_episode_reward": best,
+                 "steps_taken": subj.step_calls}, wit)
+            break
+    acc.count("bound_queried_during_episode")
     subj.reset()
     acc.count("second_episodes_started")
     if subj.current().tensor.tobytes() != first:
